@@ -35,20 +35,23 @@ LEVEL_NOTE = "schedule coverage is sampled, not exhaustive"
 
 
 def runs(tier, seed):
+    # thorough is bounded by design to <= ~15 min on an idle 16-core box (slice-tested only, see report)
     if tier == "thorough":
-        ov = 20000
-        blk = dict(cases=16, params={"blocks": 12, "max_inputs": 2000, "grid": 1}, timeout=3000)
+        ov = 12000
+        blk_t = dict(cases=16, params={"blocks": 4, "max_inputs": 1200, "grid": 1}, timeout=3000)
+        blk_a = dict(cases=16, params={"blocks": 5, "max_inputs": 2000, "grid": 1}, timeout=3000)
     else:
-        ov = 320
-        blk = dict(cases=6, params={"blocks": 3, "max_inputs": 700, "configs": 6}, timeout=1200)
+        ov = 128
+        blk_t = dict(cases=4, params={"blocks": 2, "max_inputs": 400, "configs": 4}, timeout=1200)
+        blk_a = dict(cases=4, params={"blocks": 3, "max_inputs": 700, "configs": 6}, timeout=1200)
     to = 2400 if tier == "thorough" else 900
     if os.environ.get("VH_C14_TIMEOUT"):  # only to shorten the watchdog when demonstrating a deadlock mutant
-        to = blk["timeout"] = int(os.environ["VH_C14_TIMEOUT"])
+        to = blk_t["timeout"] = blk_a["timeout"] = int(os.environ["VH_C14_TIMEOUT"])
     return [
         Run("c14_overlay", cases=ov, flavour="tsan", name="overlay-tsan", timeout=to),
         Run("c14_overlay", cases=ov, flavour="asan", name="overlay-asan", timeout=to),
-        Run("c14_blocks", flavour="tsan", name="blocks-tsan", **blk),
-        Run("c14_blocks", flavour="asan", name="blocks-asan", **blk),
+        Run("c14_blocks", flavour="tsan", name="blocks-tsan", **blk_t),
+        Run("c14_blocks", flavour="asan", name="blocks-asan", **blk_a),
     ]
 
 
